@@ -47,7 +47,7 @@ Definition ctx_arm_takes_dial (tk : tkind) : bool := match tk with TPipe => true
 
 Inductive rclass := RReply | RErr.
 
-Inductive pc :=
+Inductive xpc :=
 | PGet                                   (* top of the loop: pool.Get / getIdleConn / getConn *)
 | PDialWait (dres : option bool)         (* blocked: select { ctx.Done | dial result }; dres = dial finished (ok?) but not yet received *)
 | PWrite (fresh : bool)                  (* holds a connection; next: addQueueC+write / spawn worker / OpenStream *)
@@ -57,11 +57,11 @@ Inductive pc :=
 | PCheck (fresh : bool)                  (* the attempt failed: evaluating  !newConn && retry < N && !ctxIsDone(ctx) *)
 | PRet (r : rclass).
 
-Record state := mkSt {
+Record xstate := mkSt {
   retry : nat;          (* the Go variable *)
   ctxd : bool;          (* ctx.Done() is closed *)
   cdead : bool;         (* the attempt's connection context is cancelled (closeWithErr ran / I/O fails) *)
-  pcv : pc;
+  pcv : xpc;
   dials : nat;          (* observable: dials started by this exchange *)
   attempts : nat;       (* observable: loop iterations begun *)
   (* ghost history, used only by the theorems *)
@@ -71,9 +71,9 @@ Record state := mkSt {
   g_get_err : bool      (* the pool refused (closed / no connection available) *)
 }.
 
-Definition init : state := mkSt 0 false false PGet 0 0 0 false false false.
+Definition xinit : xstate := mkSt 0 false false PGet 0 0 0 false false false.
 
-Inductive label :=
+Inductive xlabel :=
 (* environment *)
 | ECtx                     (* the context's deadline fires / it is cancelled *)
 | EKill                    (* the attempt's connection dies: read/write error, peer FIN/RST, closeWithErr *)
@@ -86,25 +86,25 @@ Inductive label :=
 | AWrite (ok : bool)
 | ACheck.
 
-Definition is_own (l : label) : bool :=
+Definition is_own (l : xlabel) : bool :=
   match l with ECtx | EKill | EDial _ | EDeliver _ => false | _ => true end.
 
-Definition set_pc (s : state) (p : pc) : state :=
+Definition set_pc (s : xstate) (p : xpc) : xstate :=
   mkSt (retry s) (ctxd s) (cdead s) p (dials s) (attempts s) (fails s) (g_fresh_fail s) (g_dial_fail s) (g_get_err s).
 
 (* the attempt ends with an error *)
-Definition fail_attempt (tk : tkind) (s : state) (fresh : bool) : state :=
+Definition fail_attempt (tk : tkind) (s : xstate) (fresh : bool) : xstate :=
   match tk with
   | TDoH => (* no loop: the error is returned directly *)
     mkSt (retry s) (ctxd s) (cdead s) (PRet RErr) (dials s) (attempts s) (S (fails s)) true (g_dial_fail s) (g_get_err s)
   | _ => mkSt (retry s) (ctxd s) (cdead s) (PCheck fresh) (dials s) (attempts s) (S (fails s)) (g_fresh_fail s) (g_dial_fail s) (g_get_err s)
   end.
 
-Definition dial_result (s : state) (ok : bool) : state :=
+Definition dial_result (s : xstate) (ok : bool) : xstate :=
   if ok then set_pc s (PWrite true)
   else mkSt (retry s) (ctxd s) (cdead s) (PRet RErr) (dials s) (attempts s) (fails s) (g_fresh_fail s) true (g_get_err s).
 
-Definition step (tk : tkind) (s : state) (l : label) : option state :=
+Definition xstep (tk : tkind) (s : xstate) (l : xlabel) : option xstate :=
   match l, pcv s with
   (* ---- environment ---- *)
   | ECtx, PRet _ => None
@@ -155,21 +155,21 @@ Definition step (tk : tkind) (s : state) (l : label) : option state :=
   | _, _ => None
   end.
 
-Fixpoint exec (tk : tkind) (ls : list label) (s : state) : option state :=
+Fixpoint xexec (tk : tkind) (ls : list xlabel) (s : xstate) : option xstate :=
   match ls with
   | [] => Some s
-  | l :: r => match step tk s l with Some s' => exec tk r s' | None => None end
+  | l :: r => match xstep tk s l with Some s' => xexec tk r s' | None => None end
   end.
 
-Definition reachable (tk : tkind) (s : state) : Prop := exists ls, exec tk ls init = Some s.
+Definition reachable (tk : tkind) (s : xstate) : Prop := exists ls, xexec tk ls xinit = Some s.
 
-Definition returned (s : state) : bool := match pcv s with PRet _ => true | _ => false end.
+Definition returned (s : xstate) : bool := match pcv s with PRet _ => true | _ => false end.
 
 (* ---- progress measure: strictly decreases on every own step, never increases on an environment step ---- *)
-Definition rank (p : pc) : nat :=
+Definition rank (p : xpc) : nat :=
   match p with PGet => 5 | PDialWait _ => 4 | PWrite _ => 3 | PWait _ _ => 2 | PCheck _ => 1 | PRet _ => 0 end.
 
-Definition mu (tk : tkind) (s : state) : nat :=
+Definition mu (tk : tkind) (s : xstate) : nat :=
   match pcv s with
   | PRet _ => 0
   | p => (if ctxd s then 0 else (retry_limit tk - retry s) * 5) + rank p
@@ -178,13 +178,13 @@ Definition mu (tk : tkind) (s : state) : nat :=
 Definition own_bound (tk : tkind) : nat := 5 * (retry_limit tk + 1).   (* = mu tk init *)
 Definition ctx_bound : nat := 5.                                       (* after ctx is done *)
 
-Fixpoint count_own (ls : list label) : nat :=
+Fixpoint count_own (ls : list xlabel) : nat :=
   match ls with [] => 0 | l :: r => (if is_own l then 1 else 0) + count_own r end.
 
 (* ---- scripted fault placements (what the correspondence harness replays) ---- *)
 
 (* abstract behaviour of one connection *)
-Inductive fault :=
+Inductive xfault :=
 | FNone          (* healthy: the write succeeds and the reply arrives *)
 | FDialRefuse    (* the dial fails *)
 | FDialHang      (* the dial never completes *)
@@ -194,7 +194,7 @@ Inductive fault :=
 
 (* the deterministic environment of a script: what happens next, given the fault of the current connection.
    The context expires only when the goroutine would otherwise wait forever. *)
-Definition sched (tk : tkind) (s : state) (cur : fault) : option label :=
+Definition xsched (tk : tkind) (s : xstate) (cur : xfault) : option xlabel :=
   match pcv s with
   | PGet => None    (* handled by [run_labels]: consumes the script *)
   | PDialWait None =>
@@ -217,19 +217,19 @@ Definition sched (tk : tkind) (s : state) (cur : fault) : option label :=
   end.
 
 (* pooled connections are handed out in list order; when none is left a dial is started; missing entries are healthy *)
-Fixpoint run_labels (fuel : nat) (tk : tkind) (s : state) (pool dialf : list fault) (cur : fault) : list label :=
+Fixpoint run_labels (fuel : nat) (tk : tkind) (s : xstate) (pool dialf : list xfault) (cur : xfault) : list xlabel :=
   match fuel with
   | 0 => []
   | S n =>
     match pcv s with
     | PRet _ => []
     | PGet =>
-      let dial := match step tk s (AGet false) with
+      let dial := match xstep tk s (AGet false) with
                   | Some s' => AGet false :: run_labels n tk s' pool (tl dialf) (hd FNone dialf)
                   | None => []
                   end in
       (* is the pool consulted at all? (decided before looking at the script) *)
-      match step tk s (AGet true) with
+      match xstep tk s (AGet true) with
       | None => dial
       | Some s' => match pool with
                    | f :: pool' => AGet true :: run_labels n tk s' pool' dialf f
@@ -237,8 +237,8 @@ Fixpoint run_labels (fuel : nat) (tk : tkind) (s : state) (pool dialf : list fau
                    end
       end
     | _ =>
-      match sched tk s cur with
-      | Some l => match step tk s l with
+      match xsched tk s cur with
+      | Some l => match xstep tk s l with
                   | Some s' => l :: run_labels n tk s' pool dialf cur
                   | None => []
                   end
@@ -249,11 +249,11 @@ Fixpoint run_labels (fuel : nat) (tk : tkind) (s : state) (pool dialf : list fau
 
 Definition script_fuel : nat := 200.
 
-Record outcome := mkOut { o_class : rclass; o_dials : nat; o_attempts : nat; o_ctx : bool (* returned because of the deadline *) }.
+Record xoutcome := mkOut { o_class : rclass; o_dials : nat; o_attempts : nat; o_ctx : bool (* returned because of the deadline *) }.
 
 (* the outcome is, by construction, the final state of a valid execution of [step] *)
-Definition run_script (tk : tkind) (pool dialf : list fault) : option outcome :=
-  match exec tk (run_labels script_fuel tk init pool dialf FNone) init with
+Definition run_script (tk : tkind) (pool dialf : list xfault) : option xoutcome :=
+  match xexec tk (run_labels script_fuel tk xinit pool dialf FNone) xinit with
   | Some s => match pcv s with
               | PRet r => Some (mkOut r (dials s) (attempts s) (ctxd s))
               | _ => None
@@ -276,7 +276,7 @@ Inductive sfault :=
 | SWriteErr.     (* injected connection whose next Write fails (the connection itself stays usable) *)
 
 (* a freshly dialled connection *)
-Definition abs_dial (tk : tkind) (udp : bool) (f : sfault) : fault :=
+Definition abs_dial (tk : tkind) (udp : bool) (f : sfault) : xfault :=
   match f with
   | SOk => FNone
   | SRefuse => if udp then FDie else match tk with TDoH => FDie | _ => FDialRefuse end
@@ -289,7 +289,7 @@ Definition abs_dial (tk : tkind) (udp : bool) (f : sfault) : fault :=
   end.
 
 (* a pooled connection; [None]: the transport notices before use and never hands it out *)
-Definition abs_pooled (tk : tkind) (udp : bool) (f : sfault) : option fault :=
+Definition abs_pooled (tk : tkind) (udp : bool) (f : sfault) : option xfault :=
   match f with
   | SOk => Some FNone
   | SSilent | SHalf => Some FSilent
@@ -307,7 +307,7 @@ Definition abs_pooled (tk : tkind) (udp : bool) (f : sfault) : option fault :=
    so its behaviour is met by every attempt *)
 Definition pool_copies (tk : tkind) : nat := match tk with TQuic => S (retry_limit TQuic) | _ => 1 end.
 
-Fixpoint abs_pool (tk : tkind) (udp : bool) (l : list sfault) : list fault :=
+Fixpoint abs_pool (tk : tkind) (udp : bool) (l : list sfault) : list xfault :=
   match l with
   | [] => []
   | f :: r => match abs_pooled tk udp f with
@@ -316,7 +316,7 @@ Fixpoint abs_pool (tk : tkind) (udp : bool) (l : list sfault) : list fault :=
               end
   end.
 
-Definition run_case (tk : tkind) (udp : bool) (pool dialf : list sfault) : option outcome :=
+Definition run_case (tk : tkind) (udp : bool) (pool dialf : list sfault) : option xoutcome :=
   run_script tk (abs_pool tk udp pool) (map (abs_dial tk udp) dialf).
 
 (* ---- the property's own oracle (independent of [step]): when must an exchange succeed? ----
@@ -338,3 +338,132 @@ Definition must_succeed (tk : tkind) (udp : bool) (pool dialf : list sfault) : b
                            | _ => detectable f
                            end
                     end) pool.
+
+(* ================================================================================================================
+   The idle read deadline of a pipelined connection (pipeline_conn.go readLoop / write).
+
+     readLoop:  for { c.c.SetReadDeadline(time.Now().Add(idleTimeout)); r, err := read(); if err != nil {
+                       closeWithErr(ErrIdleTimeOut / err); return }; deliver r }
+     write:     c.c.Write(b)                       -- touches NO deadline
+
+   The read deadline is re-armed only after a message has been READ.  It is the only thing that detects a connection
+   that went silent without FIN/RST, so it must fire one idle time-out after the last read WHATEVER the exchanges
+   write meanwhile.  One pooled connection shared by any number of exchange goroutines (each an instance of the LTS
+   above on TPipe), with an abstract clock: [ix_since] = time units since the read loop last armed its deadline.
+
+   [wr] = "a write re-arms the read deadline".  The code is [wr = false]; [wr = true] is what a SetDeadline (instead
+   of SetWriteDeadline) in write would do, and is here only to show that the theorems are sensitive to it. *)
+
+Record ixconn := mkIxC { ix_dead : bool; ix_since : nat }.
+Record ixsys := mkIxS { ix_conn : ixconn; ix_ws : list xstate }.
+
+Inductive ixlabel :=
+| IxTick                       (* one unit of time passes *)
+| IxRead                       (* the read loop reads a message (solicited or not): the deadline is re-armed *)
+| IxIdleFire                   (* the read deadline fires: closeWithErr(ErrIdleTimeOut) *)
+| IxKill                       (* any other death of the connection: read error, FIN, RST *)
+| IxJoin                       (* a new ExchangeContext call starts *)
+| IxW (i : nat) (l : xlabel).   (* exchange i makes step l of the exchange LTS *)
+
+(* exchange w currently uses the shared pooled connection (newConn = false) *)
+Definition ix_on_conn (w : xstate) : bool :=
+  match pcv w with PWrite false | PWait false _ => true | _ => false end.
+
+(* context cancellation is a broadcast: every exchange on the connection sees it *)
+Definition ix_kill_w (w : xstate) : xstate :=
+  if ix_on_conn w
+  then mkSt (retry w) (ctxd w) true (pcv w) (dials w) (attempts w) (fails w) (g_fresh_fail w) (g_dial_fail w) (g_get_err w)
+  else w.
+
+Fixpoint ix_set_nth (i : nat) (w : xstate) (l : list xstate) : list xstate :=
+  match l, i with
+  | [], _ => []
+  | _ :: r, 0 => w :: r
+  | x :: r, S j => x :: ix_set_nth j w r
+  end.
+
+Definition ix_fire_enabled (idle : nat) (s : ixsys) : bool :=
+  negb (ix_dead (ix_conn s)) && (idle <=? ix_since (ix_conn s)).
+
+Definition ix_step (wr : bool) (idle : nat) (s : ixsys) (l : ixlabel) : option ixsys :=
+  let c := ix_conn s in
+  match l with
+  | IxTick => Some (mkIxS (mkIxC (ix_dead c) (S (ix_since c))) (ix_ws s))
+  | IxRead => if ix_dead c then None else Some (mkIxS (mkIxC false 0) (ix_ws s))
+  | IxIdleFire =>
+      if ix_fire_enabled idle s then Some (mkIxS (mkIxC true (ix_since c)) (map ix_kill_w (ix_ws s))) else None
+  | IxKill =>
+      if ix_dead c then None else Some (mkIxS (mkIxC true (ix_since c)) (map ix_kill_w (ix_ws s)))
+  | IxJoin => Some (mkIxS c (ix_ws s ++ [xinit]))
+  | IxW i l =>
+      match nth_error (ix_ws s) i with
+      | None => None
+      | Some w =>
+        let on := ix_on_conn w in
+        let allowed :=
+          match l with
+          | EKill => negb on                          (* the shared connection dies only through IxIdleFire / IxKill *)
+          | AGet true => negb (ix_dead c)             (* the pool never hands out a connection it knows to be closed *)
+          | EDeliver _ => negb (on && ix_dead c)      (* nothing is read from a closed connection *)
+          | _ => true
+          end in
+        if allowed then
+          match xstep TPipe w l with
+          | None => None
+          | Some w' =>
+            let c' :=
+              match l with
+              | EDeliver _ => if on then mkIxC (ix_dead c) 0 else c       (* a reply was read: re-armed *)
+              | AWrite _ => if wr && on then mkIxC (ix_dead c) 0 else c   (* the code: a write re-arms nothing *)
+              | _ => c
+              end in
+            Some (mkIxS c' (ix_set_nth i w' (ix_ws s)))
+          end
+        else None
+      end
+  end.
+
+Fixpoint ix_exec (wr : bool) (idle : nat) (ls : list ixlabel) (s : ixsys) : option ixsys :=
+  match ls with
+  | [] => Some s
+  | l :: r => match ix_step wr idle s l with Some s' => ix_exec wr idle r s' | None => None end
+  end.
+
+(* a label that reads from the shared connection *)
+Definition ix_is_read (s : ixsys) (l : ixlabel) : bool :=
+  match l with
+  | IxRead => true
+  | IxW i (EDeliver _) => match nth_error (ix_ws s) i with Some w => ix_on_conn w | None => false end
+  | _ => false
+  end.
+
+(* "the connection stays silent along ls": no step of the execution reads from it *)
+Fixpoint ix_silent (wr : bool) (idle : nat) (ls : list ixlabel) (s : ixsys) : bool :=
+  match ls with
+  | [] => true
+  | l :: r => negb (ix_is_read s l) &&
+              match ix_step wr idle s l with Some s' => ix_silent wr idle r s' | None => true end
+  end.
+
+Fixpoint ix_ticks (ls : list ixlabel) : nat :=
+  match ls with [] => 0 | IxTick :: r => S (ix_ticks r) | _ :: r => ix_ticks r end.
+
+Definition ix_init : ixsys := mkIxS (mkIxC false 0) [].
+
+(* what a waiter of the dead pooled connection does next when the server is healthy for new connections:
+   connection arm, retry, dial, write, reply *)
+Definition ix_recovery : list xlabel :=
+  [AArmConn; ACheck; AGet false; EDial true; AArmDial; AWrite true; EDeliver true; AArmRes].
+
+(* ---- the harness scenario with a known idle time-out: a silent pipelined connection is killed by the idle read
+   deadline before an exchange deadline that lies beyond it ---- *)
+Definition abs_idle (tk : tkind) (idle_before_deadline : bool) (f : xfault) : xfault :=
+  match tk, f with
+  | TPipe, FSilent => if idle_before_deadline then FDie else FSilent
+  | _, _ => f
+  end.
+
+Definition run_case_idle (tk : tkind) (udp : bool) (idle_before_deadline : bool) (pool dialf : list sfault)
+  : option xoutcome :=
+  run_script tk (map (abs_idle tk idle_before_deadline) (abs_pool tk udp pool))
+                (map (fun f => abs_idle tk idle_before_deadline (abs_dial tk udp f)) dialf).
